@@ -15,6 +15,11 @@ def build_lib_avp(D: S.Dict, a):
     """avp spec -> (library Avp built through Avp.new, reference bytes)."""
     from diameter.message.avp import Avp
     ref = S.ref_encode(D, a)
+    if (a["code"], a["vendor"]) not in D.by_key:
+        # no dictionary entry: the documented way is a generic Avp built by hand
+        py, _ = S.materialize(a["v"])
+        flags = (0x40 if a["m"] else 0) | (0x20 if a["p"] else 0)
+        return Avp(a["code"], a["vendor"], py, flags), ref
     if a["v"]["t"] == "Grouped":
         kids = [build_lib_avp(D, k)[0] for k in a["v"]["j"]]
         lib = Avp.new(a["code"], a["vendor"], value=kids, is_mandatory=a["m"],
